@@ -18,6 +18,7 @@ import (
 	"fmt"
 	"go/ast"
 	"go/parser"
+	"go/token"
 	"go/types"
 	"regexp"
 	"sort"
@@ -1106,6 +1107,15 @@ func (e *Engine) effectObligations(sp *ssa.Package, fc *FuncContract, fn *ssa.Fu
 					for k, v := range caps {
 						withLocals[k] = v
 					}
+					// captured variables of a closure under contract: their value at the time of the event too
+					for i, fv := range fn.FreeVars {
+						if _, taken := withLocals[fv.Name()]; taken || i >= len(bind) {
+							continue
+						}
+						if v := e.load(curEv.St, bind[i], fv.Type().(*types.Pointer).Elem(), "true", token.NoPos); v != nil {
+							withLocals[fv.Name()] = v
+						}
+					}
 					for name, c := range e.topFrame.named {
 						if _, taken := withLocals[name]; taken {
 							continue
@@ -1156,6 +1166,15 @@ func (e *Engine) effectObligations(sp *ssa.Package, fc *FuncContract, fn *ssa.Fu
 					}
 					if v, ok := olds[name]; ok {
 						return v, true
+					}
+					if ev.St != nil {
+						for i, fv := range fn.FreeVars {
+							if fv.Name() == name && i < len(bind) {
+								if v := e.load(ev.St, bind[i], fv.Type().(*types.Pointer).Elem(), "true", token.NoPos); v != nil {
+									return v, true
+								}
+							}
+						}
 					}
 					if v, ok := prov(name); ok {
 						return v, true
